@@ -1037,6 +1037,7 @@ func main() {
 	}
 
 	w.layout()
+	didKeys := w.didKeyLayout()
 	w.fetch = didsignjwt.NewVDRKeyResolver(w.vdr).PublicKeyFetcher()
 
 	if args.Replay != "" {
@@ -1390,6 +1391,12 @@ func main() {
 			}
 		}
 	}
+
+	// did:key kids resolved by the real did:key method
+	w.didKeyGroup(rng.Fork(22), didKeys, tr)
+
+	// header JSON: the decoder's view of the header bytes (model decodes the bytes itself)
+	w.headerJSONGroup(rng.Fork(21), int(args.Seed), thorough, tr)
 
 	// CONCURRENT use of verifiers
 	w.concurrent(rng.Fork(15000), thorough, tr)
